@@ -536,6 +536,11 @@ def run_unit(name, tier="quick", use_cache=True, canary=True, repo=None):
     elif aborted or (vres.get("encountered-error") and not failed_fns and res["status"] == "ok"):
         res["status"] = "undecided"
         res["undecided"].append("verus front-end error: %s" % " | ".join(vr["raw_stderr"][:5]))
+    if aborted or ((vres.get("verified") or 0) == 0 and vr["rc"] != 0):
+        # nothing was verified (the generated file was rejected before verification): no obligation of this unit counts as discharged
+        for o in obl.values():
+            if o["status"] == "discharged":
+                o["status"] = "unknown"
     if res["status"] == "ok" and not aborted and vres.get("errors", 0) == 0 and nfail:
         res["status"] = "undecided"
         res["undecided"].append("inconsistent verus result")
